@@ -71,6 +71,16 @@ def desugar(loc, relfile, fn_paths, rules, _pass=0):
                     records.append({"fn": fp, "rule": "D18 let _ = V.splice(LO..HI, ARG);  =>  V.pv_splice(LO, HI, ARG);   (spec/std_vec_splice.rs: the documented effect of Vec::splice whose iterator is dropped at once; panics unless LO <= HI <= len)",
                                     "original": src[v["call"][0]:v["call"][1]], "rewritten": new})
                     continue
+                if v["rule"] == "D23":
+                    recv = src[v["recv"][0]:v["recv"][1]]
+                    pat = src[v["pat"][0]:v["pat"][1]]
+                    body = src[v["body"][0]:v["body"][1]]
+                    new = (f"{{ let mut pv_p: usize = 0; let mut pv_r: Option<usize> = None; while pv_p < {recv}.len() {{ let {pat} = &{recv}[pv_p]; "
+                           f"if {body} {{ pv_r = Some(pv_p); break; }} pv_p += 1; }} pv_r }}")
+                    rewrites.append((v["call"][0], v["call"][1], new))
+                    records.append({"fn": fp, "rule": "D23 X.iter().position(|p| C)  =>  { index loop: the first k with C for p = &X[k], or None }",
+                                    "original": src[v["call"][0]:v["call"][1]], "rewritten": new})
+                    continue
                 if v["rule"] == "D22":
                     recv = src[v["recv"][0]:v["recv"][1]]
                     fpat = src[v["fpat"][0]:v["fpat"][1]]
